@@ -19,7 +19,7 @@ impl Property for C15 {
     fn plan(tier: Tier) -> Plan {
         match tier {
             Tier::Quick => Plan { shards: 16, cases_per_shard: 6500, max_shrink_iters: 300 },
-            Tier::Thorough => Plan { shards: 16, cases_per_shard: 120_000, max_shrink_iters: 600 },
+            Tier::Thorough => Plan { shards: 16, cases_per_shard: 60_000, max_shrink_iters: 600 },
         }
     }
 
@@ -30,7 +30,7 @@ impl Property for C15 {
         }
         match tier {
             Tier::Quick => case_strategy(250, 8, 6),
-            Tier::Thorough => case_strategy(120, 14, 10),
+            Tier::Thorough => case_strategy(100, 14, 10),
         }
     }
 
@@ -64,7 +64,7 @@ impl Property for C15 {
     }
 
     fn rule() -> String {
-        "a case is an initial model (1-4 entities over up to 3 namespaces, scalar/reference fields, indexes) and a sequence of steps; a step is 1-4 edits applied to the last ACCEPTED version (add namespace/entity/field, plain/nullable/default changes, deprecations, index add/remove, full text switch, namespace case; and removals, swaps, insertions, retypes, missing defaults, reserved/system/duplicate names, unknown references, bad default literals, syntax damage, renames), rendered to text. Acceptance is decided by the code's own update on a copy. Model-only path: three separate DataModel values (one reloaded from JSON before each update, like the service) apply every version; service path (one case in 250/120): a real instance holding rows applies the versions through update_data_model or at start-up, is restarted, and a second instance applies the accepted versions. non-trivial = an accepted version adds >= 2 items (namespaces, entities, fields) at once, or a version that parses on its own is refused by the update while the model holds >= 2 entities; distinct = distinct case digest".to_string()
+        "a case is an initial model (1-4 entities over up to 3 namespaces, scalar/reference fields, indexes) and a sequence of steps; a step is 1-4 edits applied to the last ACCEPTED version (add namespace/entity/field, plain/nullable/default changes, deprecations, index add/remove, full text switch, namespace case; and removals, swaps, insertions, retypes, missing defaults, reserved/system/duplicate names, unknown references, bad default literals, syntax damage, renames), rendered to text. Acceptance is decided by the code's own update on a copy. Model-only path: three separate DataModel values (one reloaded from JSON before each update, like the service) apply every version; service path (one case in 250 quick / 100 thorough): a real instance holding rows applies the versions through update_data_model or at start-up, is restarted, and a second instance applies the accepted versions. non-trivial = an accepted version adds >= 2 items (namespaces, entities, fields) at once, or a version that parses on its own is refused by the update while the model holds >= 2 entities; distinct = distinct case digest".to_string()
     }
 
     fn assumptions() -> Vec<String> {
